@@ -816,7 +816,7 @@ def r10(k: Kit) -> None:
                 'os.chown', 'os.chmod', 'os.utime', 'os.stat', 'os.lchown'):
             n += 1
             ok = any(kw.arg == 'follow_symlinks' and
-                     dotted(kw.value) == 'follow_symlinks'
+                     not isinstance(kw.value, ast.Constant)
                      for kw in c.keywords) or dotted(c.func) == 'os.lchown'
             rep.check(ok, 'C13.R10',
                       key(fi, f'{dotted(c.func)} honours follow_symlinks'),
